@@ -20,7 +20,9 @@ RULE = ("A case is a call history given as data: {start: flat|tree, profile: all
         "re-attachments and region removal/replacement while referenced), 'random_clean' (same generator; calls whose argument class, "
         "computed on the abstract model, is the trigger of a reported defect are skipped like a state-machine precondition, so that "
         "histories run to full length), 'exhaustive' (all sequences of 2/3 calls over a fixed alphabet of %d calls, from both start "
-        "states; shorter sequences are their prefixes). Every call runs under a 0.5 s CPU-time watchdog (a call that does not return "
+        "states; shorter sequences are their prefixes), 'values' (every pair of the 36 style properties and the 43 universe values, valid "
+        "and invalid, through set_style on an element and on a region, add_animation_step on both, and put_initial_value: acceptance must "
+        "equal the universe's own validity predicate and nothing invalid may be stored). Every call runs under a 0.5 s CPU-time watchdog (a call that does not return "
         "is a failure, bucket hang:*). evaluations = calls executed and judged; non-trivial = history in which an "
         "element accepted-removed from a parent (or detached from a document) is later accepted under another parent (in another "
         "document), or a region is removed or replaced while referenced; distinct by case hash.")
@@ -686,6 +688,20 @@ def seq_cases(chunk):
     yield {"start": start, "profile": "all", "ops": [ALPHABET[i]] + list(rest)}
 
 
+def value_chunks(tier, seed):
+  return [(p,) for p in mu.PROPS]
+
+
+def value_cases(chunk):
+  """every (style property, universe value) pair through every call that stores a value: one-call histories on both start states"""
+  prop = chunk[0]
+  for vid in mu.VIDS:
+    for start in ("flat", "tree"):
+      for op in (("set_style", "d1.p1", prop, vid), ("set_style", "d1.rA", prop, vid), ("add_animation_step", "d1.span1", prop, vid, 0, 2),
+                 ("add_animation_step", "d1.rB", prop, vid, None, 1), ("put_initial_value", "d1", prop, vid)):
+        yield {"start": start, "profile": "all", "ops": [op]}
+
+
 # ------------------------------------------------------------------------------------------------ self-test and summary
 
 def selftest():
@@ -772,4 +788,5 @@ PARTS = {
   "random_clean": Part("random_clean", check, strategy=_histories("clean"), n=(2000, 32000), shrinker=shrink,
                        required_labels=("start:flat", "start:tree")),
   "exhaustive": Part("exhaustive", check, chunks=seq_chunks, cases=seq_cases, exhaustive=(True, True), shrinker=shrink),
+  "values": Part("values", check, chunks=value_chunks, cases=value_cases, exhaustive=(True, True), shrinker=shrink),
 }
